@@ -393,7 +393,9 @@ func (c *Ctx) globalObj(st *State, g *ssa.Global) *Object {
 	et := g.Type().(*types.Pointer).Elem()
 	o := c.newObject("global."+g.Name(), et)
 	var v Value
-	if init := c.Eng.globalInit(g); init != nil && init.expr == nil {
+	if c.Eng.globalWritten(g) && !c.InitGlobals {
+		v = c.symbolic(st, et, "global."+g.Name())
+	} else if init := c.Eng.globalInit(g); init != nil && init.expr == nil {
 		v = c.zeroValue(st, et)
 		c.Assumed["package variable "+g.Pkg.Pkg.Name()+"."+g.Name()+" holds its initial (zero) value"] = true
 	} else if init != nil {
@@ -712,4 +714,69 @@ func (e *Engine) purityViolation(fn *ssa.Function, seen map[*ssa.Function]bool) 
 		}
 	}
 	return ""
+}
+
+// globalWritten: some function of the package (other than init) stores into the package variable or into memory
+// reached through it; such variables do not hold their initial value in general.
+func (e *Engine) globalWritten(g *ssa.Global) bool {
+	if e.gwritten == nil {
+		e.gwritten = map[*ssa.Global]bool{}
+		var root func(v ssa.Value) *ssa.Global
+		root = func(v ssa.Value) *ssa.Global {
+			switch x := v.(type) {
+			case *ssa.Global:
+				return x
+			case *ssa.FieldAddr:
+				return root(x.X)
+			case *ssa.IndexAddr:
+				return root(x.X)
+			case *ssa.UnOp:
+				return root(x.X)
+			}
+			return nil
+		}
+		for _, sp := range e.Prog.AllPackages() {
+			if !strings.HasPrefix(sp.Pkg.Path(), modPath) {
+				continue
+			}
+			var fns []*ssa.Function
+			for _, m := range sp.Members {
+				switch x := m.(type) {
+				case *ssa.Function:
+					fns = append(fns, x)
+					fns = append(fns, x.AnonFuncs...)
+				case *ssa.Type:
+					for _, t := range []types.Type{x.Type(), types.NewPointer(x.Type())} {
+						ms := e.Prog.MethodSets.MethodSet(t)
+						for i := 0; i < ms.Len(); i++ {
+							if f := e.Prog.MethodValue(ms.At(i)); f != nil {
+								fns = append(fns, f)
+								fns = append(fns, f.AnonFuncs...)
+							}
+						}
+					}
+				}
+			}
+			for _, f := range fns {
+				if f.Name() == "init" || strings.HasPrefix(f.Name(), "init#") {
+					continue
+				}
+				for _, b := range f.Blocks {
+					for _, in := range b.Instrs {
+						switch x := in.(type) {
+						case *ssa.Store:
+							if gg := root(x.Addr); gg != nil {
+								e.gwritten[gg] = true
+							}
+						case *ssa.MapUpdate:
+							if gg := root(x.Map); gg != nil {
+								e.gwritten[gg] = true
+							}
+						}
+					}
+				}
+			}
+		}
+	}
+	return e.gwritten[g]
 }
